@@ -125,6 +125,27 @@ func run(r *core.Run) {
 			return
 		}
 	}
+	// option pairs (see optpairs.go)
+	var optPairs []shapedOpt
+	{
+		s2, _ := fqrun.NewSession(nil)
+		if outs, err := s2.Eval(cliState(), "_global_state(.) as $_ | options"); err == nil && len(outs) == 1 {
+			if m, ok := fixNumbers(outs[0]).(map[string]any); ok {
+				var nf int
+				var okCov bool
+				optPairs, nf, okCov = optionPairObjects(m, switchedStrings(r.Repo))
+				if !okCov {
+					r.Violate("harness:covering-array", "the option pair covering array does not cover all pairs", nil)
+					return
+				}
+				if !r.IsChild || r.ShardIdx == 0 {
+					r.Extra("option_pair_factors", nf)
+					r.Extra("option_pair_objects", len(optPairs))
+				}
+			}
+		}
+		s2.Close()
+	}
 	var shapedTuples int64
 	nShapedFns := 0
 	fullArity := 2
@@ -162,7 +183,25 @@ func run(r *core.Run) {
 		}
 		pool := makePool(f, thorough, extra)
 		ts := newTupleSpace(f.Key.Arity, len(pool.items), pool.nbase, fullArity, fullCap, core.Pick(r, "basepairs", "mixed"))
-		if ts.shape != "full" {
+		if f.Key.Arity == 1 && len(pool.items) > pool.nbase {
+			// option objects are arguments; as INPUT they are just more objects (the base pool
+			// has {} and {"a":null}): input over the base pool x argument over the whole pool.
+			// Quick tier, generated per-format decode functions (one template): one input per
+			// value type.
+			var ins []int
+			seenT := map[string]bool{}
+			for i := 0; i < pool.nbase; i++ {
+				if f.Kind == "format" && !thorough {
+					if seenT[pool.items[i].Type] {
+						continue
+					}
+					seenT[pool.items[i].Type] = true
+				}
+				ins = append(ins, i)
+			}
+			ts = newInputTupleSpace(1, len(pool.items), pool.nbase, ins)
+		}
+		if ts.shape != "full" && ts.shape != "inputs" {
 			ok := pairsCovered(ts.rows, ts.k, ts.n)
 			covering[f.Key.String()] = map[string]any{"shape": ts.shape, "factors": ts.k, "levels": ts.n, "base_levels": ts.nbase,
 				"covering_rows": len(ts.rows), "strength": 2, "all_pairs_verified": ok, "tuples": ts.count}
@@ -204,6 +243,21 @@ func run(r *core.Run) {
 					rows = append(rows, []int{in, first + j})
 				}
 			}
+			// option pair objects on one input per decode value kind, binary and number
+			firstPair := len(p2.items)
+			for _, so := range optPairs {
+				p2.items = append(p2.items, poolItem{Expr: so.expr, Type: "optpair"})
+				p2.optVals = append(p2.optVals, so.val)
+			}
+			pairIns := map[string]bool{"decode_struct": true, "decode_array": true, "decode_scalar": true, "decode_raw": true, "binary": true, "number": true}
+			for _, in := range ins {
+				if !pairIns[pool.items[in].Type] {
+					continue
+				}
+				for j := range optPairs {
+					rows = append(rows, []int{in, firstPair + j})
+				}
+			}
 			ts2 := &tupleSpace{k: 2, n: len(p2.items), nbase: p2.nbase, shape: "covering", rows: rows, count: int64(len(rows))}
 			totalTuples += ts2.count
 			shapedTuples += ts2.count
@@ -235,7 +289,7 @@ func run(r *core.Run) {
 		r.Extra("shaped_option_functions", nShapedFns)
 		r.Extra("base_pool", len(basePool(thorough)))
 		r.Extra("option_values_per_key", len(optValues(thorough)))
-		r.Extra("product", "full product of (base pool + option objects of the function) over input and every argument for arity <= 2 "+
+		r.Extra("product", "arity 1 with option objects: input over the base pool (quick tier, generated per-format decode functions: one input per value type) x argument over base pool + option objects; otherwise full product of (base pool + option objects of the function) over input and every argument for arity <= 2 "+
 			"(functions whose product exceeds "+fmt.Sprint(fullCap)+" tuples use the reduced shape listed under covering_arrays, see pool.go); strength-2 covering array for arity >= 3")
 		if len(covering) > 0 {
 			r.Extra("covering_arrays", covering)
